@@ -87,6 +87,10 @@ func (mbox *Mailbox) statusDataLocked(options *imap.StatusOptions) *imap.StatusD
 		size := mbox.sizeLocked()
 		data.Size = &size
 	}
+	if options.DeletedStorage {
+		size := mbox.deletedSizeLocked()
+		data.DeletedStorage = &size
+	}
 	return &data
 }
 
@@ -104,6 +108,16 @@ func (mbox *Mailbox) sizeLocked() int64 {
 	var size int64
 	for _, msg := range mbox.l {
 		size += int64(len(msg.buf))
+	}
+	return size
+}
+
+func (mbox *Mailbox) deletedSizeLocked() int64 {
+	var size int64
+	for _, msg := range mbox.l {
+		if _, ok := msg.flags[canonicalFlag(imap.FlagDeleted)]; ok {
+			size += int64(len(msg.buf))
+		}
 	}
 	return size
 }
